@@ -1,5 +1,5 @@
 """U5 - OsIpcReceiverSet::{add, select}.  Verus."""
-from vf.gen import Unit, Fn, Clause, Hint, Rule, Loop, AppendArg
+from vf.gen import Unit, Fn, Clause, Hint, Rule, Loop, AppendArg, GuardedDestructure
 
 F = "src/platform/unix/mod.rs"
 S = "Tracked(&mut *s)"
@@ -12,8 +12,7 @@ R_DEREG = Rule("B21", r"self\s*\.poll\s*\.registry\(\)\s*\.deregister\(&mut Sour
 R_POLL = AppendArg("B22", r"self\.poll\.poll\(", S, "epoll_wait stub over the ghost world", min_count=1)
 R_RECV = AppendArg("B23", r"\brecv\(", S, "unix::recv (unit U3) as a stub that logs what the member delivered", min_count=1)
 R_CLOSE = AppendArg("B24", r"libc::close\(", S, "close stub over the ledger of owned descriptors", min_count=1, rename="k_close")
-R_GUARD = Rule("D16", r"Errno\((\w+)\)\) if \1 == ([A-Za-z_][A-Za-z0-9_:]*) =>", r"Errno(\2)) =>",
-               "equality guard on a bound integer -> the equivalent constant pattern (this Verus loses the final value of a tracked &mut on the exits of later arms when an earlier arm has such a guard)")
+R_GUARD = GuardedDestructure()
 R_EVITER = Rule("D15", r"self\.events\.iter\(\)", "self.events.v.iter()", "mio Events::iter() == iteration over the stand-in's Vec<Event>", min_count=1)
 
 add = Fn(F, ["impl OsIpcReceiverSet", "add"], ret="r", extra_params=TS,
